@@ -47,6 +47,7 @@ def run(ctx, obs):
     reject_arm(ctx, obs)
     weights(ctx, obs)
     vblock(ctx, obs)
+    v_restricted(ctx, obs)
     rescale_mask(ctx, obs)
 
 
@@ -259,6 +260,38 @@ def vblock(ctx, obs, rule='VBLOCK'):
                 cols = n.slice.elts[-1] if isinstance(n.slice, ast.Tuple) else None
                 obs.check(cols is not None and ast.dump(rows) == ast.dump(cols), rule, q2,
                           'rows and columns of V are cut with the same mask', f'`{norm(n)}`', '', where(prog, f2, n))
+
+
+def v_restricted(ctx, obs, rule='VBLOCK'):
+    """whitened pooling / fitting on RDMs with missing entries works on V with the rows and columns of the missing entries DELETED.
+    Every use of the matrix returned by get_v as the operator of a linear solve (cg / solve / spsolve / lstsq / inv) must see a
+    definition of it that was cut by a mask (`v = v[ok][:, ok]`); the raw get_v(..) result reaching the solve means missing
+    entries are treated as measured zeros (zero-filling) instead of being left out."""
+    prog = ctx.prog
+    for q in ('util.pooling.pool_rdm', 'util.inference_util.pool_rdm', 'model.fitter.fit_regress', 'model.fitter.fit_regress_nn'):
+        if not prog.has_func(q):
+            continue
+        f = prog.func(q)
+        r = ctx.dep.result(q)
+        raw_defs = {i for i, d in r.defs.items() if d.kind == 'assign' and isinstance(d.rhs, ast.Call) and _leaf(d.rhs.func) == 'get_v'}
+        if not raw_defs:
+            continue
+        for c in ast.walk(f.node):
+            if not (isinstance(c, ast.Call) and _leaf(c.func) in ('cg', 'solve', 'spsolve', 'lstsq', 'inv', 'gmres', 'minres') and c.args
+                    and isinstance(c.args[0], ast.Name)):
+                continue
+            ids = r.load_defs.get(id(c.args[0]), frozenset())
+            if not ids:
+                continue
+            hit = [i for i in ids if i in raw_defs]
+            con = f'the V handed to `{norm(c)[:50]}` has the rows and columns of missing entries deleted'
+            if hit:
+                d = r.defs[hit[0]]
+                obs.bad(rule, q, con, f'`{norm(d.node)[:60]}` reaches the solve uncut: the entries missing from the RDMs stay in V (as if they '
+                        f'had been measured), so the whitened norms differ from those of the RDMs with these entries deleted',
+                        where(prog, f, c))
+            else:
+                obs.ok(rule, q, con, '', where(prog, f, c))
 
 
 def rescale_mask(ctx, obs, rule='MASK'):
